@@ -8,6 +8,7 @@ def build(ctx):
     common.encoder_tasks(ctx, lambda m: True, parts=('legal',))
     common.pass_tasks(ctx, ['transform_compressible', 'resolve_immediates'])
     ctx.task('contracts.emit:task_emit_pass', 'resolve_instructions')
+    ctx.task('contracts.parse:task_parse')        # the text front end hands the encoder the operands the line names
     ctx.trust(common.TRUST_BOUNDED)
 
 
